@@ -100,6 +100,15 @@ package hcl
 // verif:func GetAttr
 //@ nosafety
 //@ requires cleanName: clean(attrName)
+// (unit U15, C06) a result returned without diagnostics carries every mark of the object
+//@ ensures marks: len(ret1) == 0 ==> (forall k iface :: { marked(ret0, k) } marked(obj, k) ==> marked(ret0, k))
+//@ props C06,C19
+
+// (unit U15, C06) indexing: a result returned without diagnostics carries every mark of the collection
+// verif:func Index
+//@ nosafety
+//@ ensures marks: len(ret1) == 0 ==> (forall k iface :: { marked(ret0, k) } marked(collection, k) ==> marked(ret0, k))
+//@ props C06,C19
 
 // ---- diagnostics ----
 // verif:pred hasErr(d Diagnostics) = exists j int :: 0 <= j && j < len(d) && d[j].Severity == 1
